@@ -85,6 +85,66 @@ def _bayer(tree):
            f'def bayerRepeats (rows cols os : Int) : List (Int × Int) := [{", ".join(f"({a}, {b})" for a, b in first["repeats"])}]\n']
     return out, f'bayer reps {first["reps"]} repeats {first["repeats"]}'
 
+def _bayer_wiring(tree):
+    """which letter, efficiency and einsum each colour channel of collect_charge_bayer uses, and how the channels are combined"""
+    f = _fn(tree, 'collect_charge_bayer')
+    params = [a.arg for a in f.args.args]
+    kern, chan, qsrc, flat, sep = {}, {}, {}, None, None
+    def combine(st):
+        nonlocal flat, sep
+        if not (isinstance(st, ast.Assign) and ast.unparse(st.targets[0]) == 'out'): raise Refuse(f'flatten branch: {ast.unparse(st)[:60]}')
+        v = st.value
+        if isinstance(v, ast.Tuple):
+            sep = [ast.unparse(e) for e in v.elts]
+        else:
+            terms = []
+            def walk(e):
+                if isinstance(e, ast.BinOp) and isinstance(e.op, ast.Add): walk(e.left); walk(e.right)
+                elif isinstance(e, ast.Name): terms.append(e.id)
+                else: raise Refuse(f'flattened sum: {ast.unparse(v)}')
+            walk(v); flat = terms
+    for st in f.body:
+        if isinstance(st, ast.If) and ast.unparse(st.test) == 'flatten':
+            if len(st.body) != 1 or len(st.orelse) != 1: raise Refuse('flatten branch shape')
+            combine(st.body[0]); sep_before = sep; combine(st.orelse[0])
+            if not (isinstance(st.body[0].value, ast.BinOp) and isinstance(st.orelse[0].value, ast.Tuple)): raise Refuse('flatten=True must sum, flatten=False must return the tuple')
+            continue
+        if not isinstance(st, ast.Assign) or len(st.targets) != 1 or not isinstance(st.targets[0], ast.Name): continue
+        name, v = st.targets[0].id, st.value
+        if name.startswith('qe_') and name in params:
+            if not (isinstance(v, ast.Call) and ast.unparse(v.func) == 'qe_asarray' and len(v.args) == 3 and not v.keywords
+                    and [ast.unparse(a) for a in v.args[1:]] == ['wave', 'waveunit'] and isinstance(v.args[0], ast.Name)): raise Refuse(f'qe conversion: {ast.unparse(st)}')
+            qsrc[name] = v.args[0].id
+        elif name.endswith('_kernel'):
+            if not (isinstance(v, ast.Call) and ast.unparse(v.func) in ('np.where', 'numpy.where') and len(v.args) == 3 and isinstance(v.args[0], ast.Compare)
+                    and ast.unparse(v.args[0].left) == 'bayer_pattern' and isinstance(v.args[0].ops[0], ast.Eq) and isinstance(v.args[0].comparators[0], ast.Constant)
+                    and isinstance(v.args[0].comparators[0].value, str) and len(v.args[0].comparators[0].value) == 1
+                    and [ast.unparse(a) for a in v.args[1:]] == ['1', '0']): raise Refuse(f'kernel: {ast.unparse(st)}')
+            kern[name[:-len('_kernel')]] = v.args[0].comparators[0].value
+        elif name.endswith('_e'):
+            col = name[:-2]
+            if not (isinstance(v, ast.BinOp) and isinstance(v.op, ast.Mult) and isinstance(v.left, ast.Call) and ast.unparse(v.left.func) in ('np.einsum', 'numpy.einsum')
+                    and len(v.left.args) == 3 and isinstance(v.left.args[0], ast.Constant) and ast.unparse(v.left.args[1]) == 'img' and isinstance(v.left.args[2], ast.Name)
+                    and isinstance(v.right, ast.Name)): raise Refuse(f'channel image: {ast.unparse(st)}')
+            chan[col] = (v.left.args[0].value, v.left.args[2].id, v.right.id)
+    if sorted(kern) != ['blue', 'green', 'red'] or sorted(chan) != ['blue', 'green', 'red'] or flat is None or sep is None: raise Refuse(f'channel wiring not all found: {sorted(kern)} {sorted(chan)}')
+    for q in ('qe_red', 'qe_green', 'qe_blue'):
+        if qsrc.get(q) != q: raise Refuse(f'{q} is not converted from its own parameter: {qsrc.get(q)}')
+    def s(x): return '"' + x + '"'
+    rows = []
+    for col in ('red', 'green', 'blue'):
+        sub, q, mos = chan[col]
+        if not (mos.endswith('_mosaic') and mos[:-len('_mosaic')] in kern): raise Refuse(f'{col}_e is multiplied by {mos}')
+        rows.append(f"({s(col + '_e')}, '{kern[mos[:-len('_mosaic')]]}', {s(sub)}, {s(q)})")
+    out = ['/-- colour channels of `collect_charge_bayer`: (channel image, letter its kernel selects with `np.where(bayer_pattern == ·, 1, 0)`,\n'
+           'einsum subscripts, efficiency contracted with the cube, mosaic it is multiplied by) -/\n'
+           f'def bayerChannels : List (String × Char × String × String) := [{", ".join(rows)}]\n',
+           '/-- terms of the `flatten=True` sum, in source order -/\n'
+           f'def bayerFlattenTerms : List String := [{", ".join(s(t) for t in flat)}]\n',
+           '/-- elements of the `flatten=False` tuple, in source order -/\n'
+           f'def bayerSeparateOrder : List String := [{", ".join(s(t) for t in sep)}]\n']
+    return out, f'bayer channels {[(c, chan[c][2], kern[chan[c][2][:-7]], chan[c][1]) for c in ("red", "green", "blue")]} flat {flat} separate {sep}'
+
 def _adc(tree):
     f = _fn(tree, 'adc')
     steps, order_src, einsum, cube = [], {}, {}, None
@@ -153,7 +213,8 @@ def _adc(tree):
 def generator(repo):
     tree = ast.parse(open(os.path.join(repo, SRC)).read())
     b, nb = _bayer(tree)
+    w, nw = _bayer_wiring(tree)
     a, na = _adc(tree)
-    return '\n'.join(b + a), [nb, na]
+    return '\n'.join(b + w + a), [nb, nw, na]
 
 MODULES = [{'name': 'DetectorIdx', 'src': SRC, 'generator': _robust(generator, 'collect_charge_bayer / adc bookkeeping'), 'props': ['C16']}]
